@@ -5,8 +5,8 @@
 # coq/Gen and the .vo files of the working copy are left alone) with VERIF_REPO pointing at the
 # scratch tree, and reset the worktree.
 d="$1"; shift
-T=/tmp/seedtree
-V=/tmp/vseed
+T=${SEEDTREE:-/tmp/seedtree}
+V=${VSEED:-/tmp/vseed}
 [ -d $T ] || git -C /repo worktree add -q --detach $T HEAD
 git -C $T checkout -q --detach $(git -C /repo rev-parse HEAD) && git -C $T checkout -q -- . && git -C $T clean -fdq
 mkdir -p $V && rsync -a --delete --exclude .git --exclude replays --exclude coq/cases --exclude evidence /verif/ $V/
